@@ -99,6 +99,10 @@ func genC12Plan(r *sim.Rng, tier string) RtpPlan {
 			}
 		default:
 			u.Size = 1 + r.Intn(1000)
+			if r.Bool(0.06) {
+				// a frame above the packer's payload limit: G.711 / Opus have no fragmentation, the frame stays one packet
+				u.Size = rtpMaxPayload + 1 + r.Intn(3000)
+			}
 		}
 		if pl.ListMax > 0 && u.Size > pl.ListMax/4*rtpMaxPayload {
 			// a unit must fit into the list several times over, or reordering at its start overflows the list legitimately
